@@ -1,0 +1,559 @@
+//go:build verif
+
+// Contracts for the deductive verifier in /verif (govc). Only compiled with -tags verif.
+
+package boot
+
+//@ func assert_
+//@   requires b
+
+// assert_ is a ghost assertion: its precondition is an obligation at every call.
+func assert_(b bool) {}
+
+// ==== C17: kernel and base updates can always fall back to the last known-good revision ============
+//
+// What is proved here are the transitions of snapd's side of the try-boot protocol, function by
+// function, on the real code: which boot variable / modeenv field is written with what, under which
+// condition, and in which order. The bootloader's side (grub.cfg, u-boot scripts) is not Go code.
+
+// ---- UC16/18: bootloader variables ----------------------------------------------------------------
+//
+// snap_<t> is the known-good revision, snap_try_<t> the one being tried, snap_mode goes
+// "" -> "try" (snapd) -> "trying" (bootloader) -> "" (snapd on success, bootloader on failure).
+
+// the three variables of one boot snap type are pairwise different names
+//@ define keys16(sfx string) = "snap_" + sfx != "snap_mode" && "snap_try_" + sfx != "snap_mode" && "snap_try_" + sfx != "snap_" + sfx
+
+//@ func lemKeys16
+//@   lemma
+//@   props C17
+//@   requires sfx == "kernel" || sfx == "core"
+//@   ensures keys16(sfx)
+
+func lemKeys16(sfx string) {
+	assert_(("snap_" + sfx)[5] == sfx[0])
+}
+
+// only "kernel" and "core" are ever used as variable suffix
+//@ func newBootState16
+//@   props C17
+//@   nopanic
+//@   requires typ == snap.TypeKernel || typ == snap.TypeBase
+//@   ensures exists p *bootState16 :: p != nil && iface(p) == result && (p.varSuffix == "kernel" || p.varSuffix == "core") && (p.varSuffix == "kernel") == (typ == snap.TypeKernel)
+
+//@ fieldguard [C17] bootState16.varSuffix: val == "kernel" || val == "core"
+
+//@ func newBootStateUpdate16
+//@   props C17
+//@   ensures [threaded] result1 == nil && u != nil ==> iface(result0) == u
+//@   ensures [fresh] result1 == nil && u == nil ==> result0 != nil && len(result0.toCommit) == 0 && result0.env != result0.toCommit && forall k string :: !has(result0.toCommit, k)
+
+// the variables markSuccessful writes, given the mode and try value it read
+//@ define ms16Writes(mode string, tryv string, k string, good string, try string) = (mode != "trying" && k == try) || (mode == "trying" && (k == "snap_mode" || (tryv != "" && (k == good || k == try))))
+
+// The update handed in is an allocated object (Go memory safety; the parameter is an interface, for
+// which the engine has no such hypothesis of its own).
+//@ func (*bootState16).markSuccessful
+//@   props C17
+//@   requires keys16(s16.varSuffix)
+//@   requires forall p *bootStateUpdate16 :: {iface(p)} iface(p) == update ==> allocated(p)
+//@   ensures [same-update] result1 == nil && update != nil ==> result0 == update
+//@   ensures [result] result1 == nil ==> result0 == iface(final(u16))
+//@   ensures [names] result1 == nil ==> final(bootVar) == "snap_" + s16.varSuffix && final(tryBootVar) == "snap_try_" + s16.varSuffix
+//@   ensures [fresh-dom] result1 == nil && update == nil ==> forall k string :: has(final(u16).toCommit, k) == ms16Writes(final(u16).env["snap_mode"], final(u16).env[final(tryBootVar)], k, final(bootVar), final(tryBootVar))
+//@   ensures [fresh-val] result1 == nil && update == nil ==> forall k string :: has(final(u16).toCommit, k) ==> final(u16).toCommit[k] == ite(k == final(bootVar), final(u16).env[final(tryBootVar)], "")
+//@   ensures [fresh-good-only-from-tried] result1 == nil && update == nil && has(final(u16).toCommit, final(bootVar)) ==> final(u16).env["snap_mode"] == "trying" && final(u16).env[final(tryBootVar)] != "" && final(u16).toCommit[final(bootVar)] == final(u16).env[final(tryBootVar)]
+//@   ensures [threaded-dom] result1 == nil && update != nil ==> forall k string :: has(final(u16).toCommit, k) == (old(has(final(u16).toCommit, k)) || ms16Writes(old(final(u16).env["snap_mode"]), old(final(u16).env[final(tryBootVar)]), k, final(bootVar), final(tryBootVar)))
+//@   ensures [threaded-val] result1 == nil && update != nil ==> forall k string :: final(u16).toCommit[k] == ite(ms16Writes(old(final(u16).env["snap_mode"]), old(final(u16).env[final(tryBootVar)]), k, final(bootVar), final(tryBootVar)), ite(k == final(bootVar), old(final(u16).env[final(tryBootVar)]), ""), old(final(u16).toCommit[k]))
+//@   ensures [threaded-good-only-from-tried] result1 == nil && update != nil && final(u16).toCommit[final(bootVar)] != old(final(u16).toCommit[final(bootVar)]) ==> old(final(u16).env["snap_mode"]) == "trying" && old(final(u16).env[final(tryBootVar)]) != "" && final(u16).toCommit[final(bootVar)] == old(final(u16).env[final(tryBootVar)])
+//@   ensures [model-promotes] result1 == nil && update == nil ==> has(final(u16).toCommit, final(bootVar)) == spec16Promotes(final(u16).env["snap_mode"], final(u16).env[final(tryBootVar)])
+//@   ensures [mode-cleared-only-when-trying] result1 == nil && update != nil && final(u16).toCommit["snap_mode"] != old(final(u16).toCommit["snap_mode"]) ==> old(final(u16).env["snap_mode"]) == "trying" && final(u16).toCommit["snap_mode"] == ""
+
+// setNext: the known-good variable is only written when undoing (BootWithoutTry); a new revision goes
+// to the try variable with snap_mode=try; asking for the known-good revision cleans a pending try.
+//@ func (*bootState16).setNext
+//@   props C17
+//@   requires keys16(s16.varSuffix)
+//@   ensures [names] final(goodBootVar) == "snap_" + s16.varSuffix && final(nextBootVar) == "snap_try_" + s16.varSuffix
+//@   ensures [nothing-to-do] err == nil ==> (u == nil) == (final(u16).env[final(goodBootVar)] == s.Filename() && final(u16).env["snap_mode"] == "")
+//@   ensures [result] err == nil && u != nil ==> u == iface(final(u16))
+//@   ensures [good-only-on-undo] err == nil && u != nil ==> has(final(u16).toCommit, final(goodBootVar)) == (final(u16).env[final(goodBootVar)] != s.Filename() && bootCtx.BootWithoutTry)
+//@   ensures [good-value] err == nil && u != nil && has(final(u16).toCommit, final(goodBootVar)) ==> final(u16).toCommit[final(goodBootVar)] == s.Filename()
+//@   ensures [try] err == nil && u != nil && final(u16).env[final(goodBootVar)] != s.Filename() && !bootCtx.BootWithoutTry ==> final(u16).toCommit["snap_mode"] == "try" && final(u16).toCommit[final(nextBootVar)] == s.Filename() && rbi.RebootRequired
+//@   ensures [clean] err == nil && u != nil && (final(u16).env[final(goodBootVar)] == s.Filename() || bootCtx.BootWithoutTry) ==> final(u16).toCommit["snap_mode"] == "" && final(u16).toCommit[final(nextBootVar)] == ""
+//@   ensures [dom] err == nil && u != nil ==> has(final(u16).toCommit, "snap_mode") && has(final(u16).toCommit, final(nextBootVar)) && forall k string :: has(final(u16).toCommit, k) ==> k == "snap_mode" || k == final(nextBootVar) || k == final(goodBootVar)
+//@   ensures [reboot] err == nil ==> rbi.RebootRequired == (final(u16).env[final(goodBootVar)] != s.Filename())
+
+// commit: the variables written are the ones read, overridden by the pending changes; nothing is
+// written when there is no pending change
+//@ func (*bootStateUpdate16).commit
+//@   props C17
+//@   requires u16.env != u16.toCommit
+//@   guard call SetBootVars: [something-to-commit] len(u16.toCommit) != 0
+//@   guard call SetBootVars: [merged] arg0 == u16.env && forall k string :: has(u16.toCommit, k) ==> has(u16.env, k) && u16.env[k] == u16.toCommit[k]
+//@   guard call SetBootVars: [rest-as-read] forall k string :: !has(u16.toCommit, k) ==> has(u16.env, k) == old(has(u16.env, k)) && u16.env[k] == old(u16.env[k])
+//@   loop 0: invariant env == old(u16.env) && u16.env == env && u16.toCommit == old(u16.toCommit) && env != u16.toCommit && len(u16.toCommit) == old(len(u16.toCommit)) && forall k string :: has(u16.toCommit, k) == old(has(u16.toCommit, k)) && u16.toCommit[k] == old(u16.toCommit[k])
+//@   loop 0: invariant (forall k string :: visited(k) ==> has(env, k) && env[k] == u16.toCommit[k]) && forall k string :: !has(u16.toCommit, k) ==> has(env, k) == old(has(u16.env, k)) && env[k] == old(u16.env[k])
+
+// ---- UC20+: modeenv and bootloader kernel state ------------------------------------------------------
+
+// Serialising / deep-copying a modeenv goes through encoding/json and file I/O (no model). Assumed
+// (T5): writing it does not modify it or the pending update; the JSON round trip of Copy returns a
+// new object with the same base fields and the same list of trusted kernels in a slice of its own.
+//@ func (*Modeenv).Write
+//@   trusted
+//@   assigns nothing
+
+//@ func (*Modeenv).deepEqual
+//@   trusted
+//@   assigns nothing
+
+//@ func (*Modeenv).Copy
+//@   trusted
+//@   assigns nothing
+//@   ensures result1 == nil ==> result0 != nil && result0 != m && !old(allocated(result0))
+//@   ensures result1 == nil ==> result0.Base == m.Base && result0.TryBase == m.TryBase && result0.BaseStatus == m.BaseStatus && result0.Gadget == m.Gadget
+//@   ensures result1 == nil ==> len(result0.CurrentKernels) == len(m.CurrentKernels) && (len(m.CurrentKernels) > 0 ==> arrayOf(result0.CurrentKernels) != arrayOf(m.CurrentKernels) && allocated(arrayOf(m.CurrentKernels))) && forall j int :: 0 <= j && j < len(m.CurrentKernels) ==> result0.CurrentKernels[j] == m.CurrentKernels[j]
+
+//@ func ReadModeenv
+//@   trusted
+//@   assigns nothing
+//@   ensures result1 == nil ==> result0 != nil
+
+// resealing (FDE) is outside this property; it is called through a package variable, so its calls
+// are counted in a ghost counter to state the order of commit() (T5: it does not touch the update)
+//@ ghost resealCount() int
+
+//@ func var:resealKeyToModeenv
+//@   trusted
+//@   assigns resealCount
+//@   ensures resealCount() == old(resealCount()) + 1
+
+// Assumed (T5) of every commit task: it does not modify the update it is queued in, nor a modeenv.
+//@ func (boot.bootCommitTask)
+//@   trusted
+//@   preserves bootStateUpdate20.preModeenvTasks bootStateUpdate20.postModeenvTasks bootStateUpdate20.modeenv bootStateUpdate20.writeModeenv E:Func Modeenv.* E:Str C:Ref C:Iface C:Str C:Bool
+
+//@ func (*bootStateUpdate20).preModeenv
+//@   props C17
+//@   requires u20 != nil
+//@   ensures len(u20.preModeenvTasks) == old(len(u20.preModeenvTasks)) + 1 && u20.preModeenvTasks[old(len(u20.preModeenvTasks))] == task
+//@   ensures forall j int :: 0 <= j && j < old(len(u20.preModeenvTasks)) ==> u20.preModeenvTasks[j] == old(u20.preModeenvTasks[j])
+//@   ensures u20.postModeenvTasks == old(u20.postModeenvTasks) && u20.modeenv == old(u20.modeenv) && u20.writeModeenv == old(u20.writeModeenv)
+
+//@ func (*bootStateUpdate20).postModeenv
+//@   props C17
+//@   requires u20 != nil
+//@   ensures len(u20.postModeenvTasks) == old(len(u20.postModeenvTasks)) + 1 && u20.postModeenvTasks[old(len(u20.postModeenvTasks))] == task
+//@   ensures forall j int :: 0 <= j && j < old(len(u20.postModeenvTasks)) ==> u20.postModeenvTasks[j] == old(u20.postModeenvTasks[j])
+//@   ensures u20.preModeenvTasks == old(u20.preModeenvTasks) && u20.modeenv == old(u20.modeenv) && u20.writeModeenv == old(u20.writeModeenv)
+
+// commit(): tasks queued "before the modeenv" run before the modeenv is written, the modeenv is
+// written at most once and before resealing, tasks queued "after the modeenv" run only after the
+// write and the reseal; the first error stops everything.
+//@ func (*bootStateUpdate20).commit
+//@   props C17
+//@   requires u20 != nil
+//@   guard call bootCommitTask: [pre-before-write-post-after-reseal] (resealCount() == old(resealCount()) && !called("(*Modeenv).Write") && exists i int :: 0 <= i && i < len(old(u20.preModeenvTasks)) && recv == old(u20.preModeenvTasks[i])) || (resealCount() == old(resealCount()) + 1 && exists i int :: 0 <= i && i < len(old(u20.postModeenvTasks)) && recv == old(u20.postModeenvTasks[i]))
+//@   guard call (*Modeenv).Write: [the-new-modeenv-once-before-reseal] arg0 == old(u20.writeModeenv) && !called("(*Modeenv).Write") && resealCount() == old(resealCount())
+//@   ensures [success-means-resealed-once] result == nil ==> resealCount() == old(resealCount()) + 1
+//@   ensures [reseal-at-most-once] resealCount() == old(resealCount()) || resealCount() == old(resealCount()) + 1
+//@   ensures [update-unchanged] u20.writeModeenv == old(u20.writeModeenv) && u20.modeenv == old(u20.modeenv)
+//@   loop 0: invariant -1 <= idx0 && idx0 < len(ranged0) && ranged0 == old(u20.preModeenvTasks) && resealCount() == old(resealCount()) && !called("(*Modeenv).Write") && u20.writeModeenv == old(u20.writeModeenv) && u20.modeenv == old(u20.modeenv) && u20.postModeenvTasks == old(u20.postModeenvTasks)
+//@   loop 0: invariant (forall j int :: 0 <= j && j < len(old(u20.postModeenvTasks)) ==> u20.postModeenvTasks[j] == old(u20.postModeenvTasks[j])) && forall j int :: 0 <= j && j < len(old(u20.preModeenvTasks)) ==> ranged0[j] == old(u20.preModeenvTasks[j])
+//@   loop 1: invariant -1 <= idx1 && idx1 < len(ranged1) && ranged1 == old(u20.postModeenvTasks) && resealCount() == old(resealCount()) + 1 && u20.writeModeenv == old(u20.writeModeenv) && u20.modeenv == old(u20.modeenv)
+//@   loop 1: invariant forall j int :: 0 <= j && j < len(old(u20.postModeenvTasks)) ==> ranged1[j] == old(u20.postModeenvTasks[j])
+
+// ---- UC20+: which revision is reported / selected --------------------------------------------------
+
+//@ define isBase20(b bootState20) = exists p *bootState20Base :: {iface(p)} iface(p) == b
+
+// The interface through which the generic code asks a boot state for (known-good, tried, status).
+// Assumed (T5) for every implementation: it writes at most the kernel boot state's own fields (the
+// bootloader kernel state is loaded lazily) and string maps, never a modeenv or a pending update. For the
+// base implementation the clauses below are the ones verified on (*bootState20Base).revisionsFromModeenv.
+//@ func (boot.bootState20).revisionsFromModeenv
+//@   trusted
+//@   assigns bootState20Kernel.bks bootState20Kernel.rbl extractedRunKernelImageBootloaderKernelState.* envRefExtractedKernelBootloaderKernelState.* Md:Str:Str Mv:Str:Str Mc:Str:Str
+//@   ensures isBase20(recv) && err == nil ==> curSnap != nil && parsedFrom(curSnap, arg0.Base) && tryingStatus == arg0.BaseStatus && (trySnap != nil) == (arg0.BaseStatus != "" && arg0.TryBase != "") && (trySnap != nil ==> parsedFrom(trySnap, arg0.TryBase))
+//@   ensures isBase20(recv) && err != nil ==> trySnap == nil && tryingStatus == "" && (curSnap != nil ==> parsedFrom(curSnap, arg0.Base))
+
+// base: the known-good revision is modeenv base=, a tried revision is reported only while
+// base_status is not empty and try_base= is set
+//@ func (*bootState20Base).revisionsFromModeenv
+//@   props C17
+//@   ensures err == nil ==> curSnap != nil && parsedFrom(curSnap, modeenv.Base) && tryingStatus == modeenv.BaseStatus && (trySnap != nil) == (modeenv.BaseStatus != "" && modeenv.TryBase != "") && (trySnap != nil ==> parsedFrom(trySnap, modeenv.TryBase))
+//@   ensures err != nil ==> trySnap == nil && tryingStatus == "" && (curSnap != nil ==> parsedFrom(curSnap, modeenv.Base))
+
+//@ func newTrySnapErrorf
+//@   props C17
+//@   ensures result != nil
+
+//@ const [C17] errTrySnapFallback: errors.New("fallback to original snap")
+
+// Which revision the initramfs mounts: the tried one only if the status is the one expected for a
+// trial at this stage and a tried revision is reported (and its file exists); in every other case
+// the known-good one, with errTrySnapFallback when the status says a trial is under way.
+//@ func genericInitramfsSelectSnap
+//@   props C17
+//@   requires expectedTryStatus == "try" || expectedTryStatus == "trying"
+//@   ensures [tried-only-in-expected-status] secondChoice != nil ==> err == nil && firstChoice == final(trySnap) && firstChoice != nil && secondChoice == final(curSnap) && final(snapTryStatus) == expectedTryStatus
+//@   ensures [else-known-good] secondChoice == nil && firstChoice != nil && final(curSnap) != nil ==> firstChoice == final(curSnap) && (err == nil || err == errTrySnapFallback)
+//@   ensures [nothing-on-error] err != nil && err != errTrySnapFallback ==> firstChoice == nil && secondChoice == nil
+//@   ensures [no-trial-no-error] err == nil && secondChoice == nil && final(curSnap) != nil ==> final(snapTryStatus) == "" && expectedTryStatus != ""
+//@   ensures [fallback-error] err == errTrySnapFallback ==> secondChoice == nil && (firstChoice != nil ==> final(snapTryStatus) != "")
+//@   ensures [base-provenance] isBase20(bs) && firstChoice != nil ==> final(snapTryStatus) == old(modeenv.BaseStatus) || final(snapTryStatus) == ""
+//@   ensures [base-good] isBase20(bs) && secondChoice == nil && firstChoice != nil ==> parsedFrom(firstChoice, old(modeenv.Base))
+//@   ensures [base-tried] isBase20(bs) && secondChoice != nil ==> parsedFrom(firstChoice, old(modeenv.TryBase)) && parsedFrom(secondChoice, old(modeenv.Base)) && old(modeenv.BaseStatus) == expectedTryStatus && old(modeenv.TryBase) != ""
+//@   ensures [modeenv-untouched] modeenv.BaseStatus == old(modeenv.BaseStatus) && modeenv.Base == old(modeenv.Base) && modeenv.TryBase == old(modeenv.TryBase) && modeenv.CurrentKernels == old(modeenv.CurrentKernels)
+
+//@ func loadModeenv
+//@   props C17
+//@   ensures result1 == nil ==> result0 != nil
+
+// a new pending update: no tasks queued, the modeenv to write is a fresh copy of the one read
+//@ func newBootStateUpdate20
+//@   props C17
+//@   ensures result1 == nil ==> result0 != nil && !old(allocated(result0)) && result0.modeenv != nil && result0.writeModeenv != nil && result0.writeModeenv != result0.modeenv && (m != nil ==> result0.modeenv == m)
+//@   ensures result1 == nil ==> len(result0.preModeenvTasks) == 0 && len(result0.postModeenvTasks) == 0
+//@   ensures [frame] forall p *bootStateUpdate20 :: {p.writeModeenv} {p.modeenv} {p.preModeenvTasks} {p.postModeenvTasks} old(allocated(p)) ==> p.modeenv == old(p.modeenv) && p.writeModeenv == old(p.writeModeenv) && p.preModeenvTasks == old(p.preModeenvTasks) && p.postModeenvTasks == old(p.postModeenvTasks)
+//@   ensures result1 == nil ==> result0.writeModeenv.Base == result0.modeenv.Base && result0.writeModeenv.TryBase == result0.modeenv.TryBase && result0.writeModeenv.BaseStatus == result0.modeenv.BaseStatus
+//@   ensures result1 == nil ==> len(result0.writeModeenv.CurrentKernels) == len(result0.modeenv.CurrentKernels) && (len(result0.modeenv.CurrentKernels) > 0 ==> arrayOf(result0.writeModeenv.CurrentKernels) != arrayOf(result0.modeenv.CurrentKernels) && allocated(arrayOf(result0.modeenv.CurrentKernels))) && forall j int :: 0 <= j && j < len(result0.modeenv.CurrentKernels) ==> result0.writeModeenv.CurrentKernels[j] == result0.modeenv.CurrentKernels[j]
+
+//@ func toBootStateUpdate20
+//@   props C17
+//@   ensures err == nil ==> u20 != nil
+//@   ensures err == nil && (exists p *bootStateUpdate20 :: {iface(p)} p != nil && iface(p) == update) ==> iface(u20) == update
+//@   ensures err == nil ==> iface(u20) == update || (!old(allocated(u20)) && len(u20.preModeenvTasks) == 0 && len(u20.postModeenvTasks) == 0 && u20.modeenv != nil && u20.writeModeenv != nil && u20.writeModeenv != u20.modeenv)
+//@   ensures err == nil && update == nil ==> iface(u20) != update
+//@   ensures [frame] forall p *bootStateUpdate20 :: {p.writeModeenv} {p.modeenv} {p.preModeenvTasks} {p.postModeenvTasks} old(allocated(p)) ==> p.modeenv == old(p.modeenv) && p.writeModeenv == old(p.writeModeenv) && p.preModeenvTasks == old(p.preModeenvTasks) && p.postModeenvTasks == old(p.postModeenvTasks)
+
+// After a boot: the revision to record as known-good is the tried one only if the status is
+// "trying" (set by the boot side when it picked the tried revision) and a tried revision exists.
+//@ func selectSuccessfulBootSnap
+//@   props C17
+//@   requires forall p *bootStateUpdate20 :: {iface(p)} iface(p) == update ==> allocated(p) && p.writeModeenv != p.modeenv
+//@   ensures [two-modeenvs] err == nil ==> u20.writeModeenv != u20.modeenv
+//@   ensures [frame] forall p *bootStateUpdate20 :: {p.writeModeenv} {p.modeenv} {p.preModeenvTasks} {p.postModeenvTasks} old(allocated(p)) ==> p.modeenv == old(p.modeenv) && p.writeModeenv == old(p.writeModeenv) && p.preModeenvTasks == old(p.preModeenvTasks) && p.postModeenvTasks == old(p.postModeenvTasks)
+//@   ensures [tried-only-when-trying] err == nil ==> bootedSnap == ite(final(status) == "trying" && final(trySnap) != nil, final(trySnap), final(sn))
+//@   ensures [update] err == nil ==> u20 != nil && u20 == final(u20)
+//@   ensures [threaded] err == nil && (exists p *bootStateUpdate20 :: {iface(p)} p != nil && iface(p) == update) ==> iface(u20) == update
+//@   ensures [or-fresh] err == nil ==> iface(u20) == update || (!old(allocated(u20)) && len(u20.preModeenvTasks) == 0 && len(u20.postModeenvTasks) == 0)
+//@   ensures [base] err == nil && isBase20(b) ==> bootedSnap != nil && parsedFrom(bootedSnap, ite(u20.modeenv.BaseStatus == "trying" && u20.modeenv.TryBase != "", u20.modeenv.TryBase, u20.modeenv.Base))
+
+// ---- UC20+ base: modeenv base= / try_base= / base_status= ---------------------------------------------
+
+// genericSetNext: a reboot is needed iff the requested revision differs from the known-good one
+//@ func genericSetNext
+//@   props C17
+//@   ensures [fresh-update] err == nil ==> u20 != nil && !old(allocated(u20)) && len(u20.preModeenvTasks) == 0 && len(u20.postModeenvTasks) == 0 && u20.modeenv != nil && u20.writeModeenv != nil && u20.writeModeenv != u20.modeenv
+//@   ensures [copy] err == nil ==> u20.writeModeenv.Base == u20.modeenv.Base && u20.writeModeenv.TryBase == u20.modeenv.TryBase && u20.writeModeenv.BaseStatus == u20.modeenv.BaseStatus
+//@   ensures [copy-kernels] err == nil ==> len(u20.writeModeenv.CurrentKernels) == len(u20.modeenv.CurrentKernels) && (len(u20.modeenv.CurrentKernels) > 0 ==> arrayOf(u20.writeModeenv.CurrentKernels) != arrayOf(u20.modeenv.CurrentKernels) && allocated(arrayOf(u20.modeenv.CurrentKernels))) && forall j int :: 0 <= j && j < len(u20.modeenv.CurrentKernels) ==> u20.writeModeenv.CurrentKernels[j] == u20.modeenv.CurrentKernels[j]
+//@   ensures [reboot-iff-different] err == nil ==> rebootRequired == !(final(current).SnapName() == next.SnapName() && next.SnapRevision() == final(current).SnapRevision())
+//@   ensures [base-current] err == nil && isBase20(b) ==> parsedFrom(final(current), u20.modeenv.Base)
+
+// Marking a base boot successful: base= becomes the tried revision only if base_status was
+// "trying" (set by the initramfs when it picked try_base=), otherwise it keeps the revision it had;
+// the trial state is always cleared.
+//@ func (*bootState20Base).markSuccessful
+//@   props C17
+//@   requires forall p *bootStateUpdate20 :: {iface(p)} iface(p) == update ==> allocated(p) && p.writeModeenv != p.modeenv
+//@   ensures [trial-cleared] result1 == nil ==> final(u20).writeModeenv.BaseStatus == "" && final(u20).writeModeenv.TryBase == ""
+//@   ensures [good-only-from-tried] result1 == nil ==> final(sn) != nil && final(u20).writeModeenv.Base == final(sn).Filename() && parsedFrom(final(sn), ite(final(u20).modeenv.BaseStatus == "trying" && final(u20).modeenv.TryBase != "", final(u20).modeenv.TryBase, final(u20).modeenv.Base))
+//@   ensures [model-promotes] result1 == nil ==> parsedFrom(final(sn), ite(specBasePromotes(final(u20).modeenv.BaseStatus, final(u20).modeenv.TryBase), final(u20).modeenv.TryBase, final(u20).modeenv.Base))
+//@   ensures [result] result1 == nil ==> result0 == iface(final(u20))
+
+// Setting the next base: base= (known-good) is only rewritten when undoing; a new revision goes to
+// try_base= with base_status=try; asking for the known-good revision clears a pending trial status.
+//@ func (*bootState20Base).setNext
+//@   props C17
+//@   ensures [result] err == nil ==> u == iface(final(u20)) && final(u20) != nil
+//@   ensures [try] err == nil && rbi.RebootRequired && !bootCtx.BootWithoutTry ==> final(u20).writeModeenv.BaseStatus == "try" && final(u20).writeModeenv.TryBase == next.Filename() && final(u20).writeModeenv.Base == final(u20).modeenv.Base
+//@   ensures [undo] err == nil && rbi.RebootRequired && bootCtx.BootWithoutTry ==> final(u20).writeModeenv.BaseStatus == "" && final(u20).writeModeenv.TryBase == "" && final(u20).writeModeenv.Base == next.Filename()
+//@   ensures [same] err == nil && !rbi.RebootRequired ==> final(u20).writeModeenv.BaseStatus == "" && final(u20).writeModeenv.Base == final(u20).modeenv.Base && final(u20).writeModeenv.TryBase == final(u20).modeenv.TryBase
+//@   ensures [nothing-queued] err == nil ==> len(final(u20).preModeenvTasks) == 0 && len(final(u20).postModeenvTasks) == 0
+
+// The initramfs picks the base: the tried revision only when base_status is "try" and try_base= is
+// set (and then base_status moves to "trying" and is written before the base is used); with
+// base_status "trying" (the previous trial boot did not reach snapd) the known-good revision is
+// picked and the status is reset and written.
+//@ func (*bootState20Base).selectAndCommitSnapInitramfsMount
+//@   props C17
+//@   ensures [good-or-the-tried-one] err == nil && sn != nil ==> parsedFrom(sn, old(modeenv.Base)) || (old(modeenv.BaseStatus) == "try" && old(modeenv.TryBase) != "" && parsedFrom(sn, old(modeenv.TryBase)) && modeenv.BaseStatus == "trying")
+//@   ensures [failed-trial-falls-back] err == nil && old(modeenv.BaseStatus) == "trying" ==> (sn != nil ==> parsedFrom(sn, old(modeenv.Base))) && modeenv.BaseStatus == ""
+//@   ensures [no-trial] err == nil && old(modeenv.BaseStatus) == "" ==> (sn != nil ==> parsedFrom(sn, old(modeenv.Base))) && modeenv.BaseStatus == ""
+//@   ensures [model-status] err == nil ==> modeenv.BaseStatus == specBaseInitStatus(old(modeenv.BaseStatus), final(second) != nil) && (final(second) != nil ==> old(modeenv.BaseStatus) == "try")
+//@   ensures [model-pick] err == nil && sn != nil ==> (final(second) != nil ==> old(modeenv.TryBase) != "" && parsedFrom(sn, old(modeenv.TryBase))) && (final(second) == nil ==> parsedFrom(sn, old(modeenv.Base)))
+//@   ensures [status-written] err == nil && modeenv.BaseStatus != old(modeenv.BaseStatus) ==> called("(*Modeenv).Write")
+//@   ensures [revisions-untouched] modeenv.Base == old(modeenv.Base) && modeenv.TryBase == old(modeenv.TryBase)
+//@   guard call (*Modeenv).Write: [the-changed-modeenv] arg0 == modeenv && modeenv.BaseStatus != old(modeenv.BaseStatus)
+
+// ---- UC20+ kernel: bootloader kernel state + modeenv current_kernels= --------------------------------
+
+// The bootloader-specific kernel state (two implementations below). Assumed (T5) of the calls made
+// through the interface: they write at most the kernel state's own fields and string maps (boot variables), never a
+// modeenv or a pending update.
+//@ func (boot.bootloaderKernelState20).kernel
+//@   trusted
+//@   assigns nothing
+
+//@ func (boot.bootloaderKernelState20).kernelStatus
+//@   trusted
+//@   assigns nothing
+
+//@ func (boot.bootloaderKernelState20).tryKernel
+//@   trusted
+//@   assigns nothing
+
+//@ func (boot.bootloaderKernelState20).load
+//@   trusted
+//@   assigns bootState20Kernel.bks bootState20Kernel.rbl extractedRunKernelImageBootloaderKernelState.* envRefExtractedKernelBootloaderKernelState.* Md:Str:Str Mv:Str:Str Mc:Str:Str
+
+//@ func (boot.bootloaderKernelState20).markSuccessfulKernel
+//@   trusted
+//@   assigns bootState20Kernel.bks bootState20Kernel.rbl extractedRunKernelImageBootloaderKernelState.* envRefExtractedKernelBootloaderKernelState.* Md:Str:Str Mv:Str:Str Mc:Str:Str
+
+//@ func (boot.bootloaderKernelState20).setNextKernel
+//@   trusted
+//@   assigns bootState20Kernel.bks bootState20Kernel.rbl extractedRunKernelImageBootloaderKernelState.* envRefExtractedKernelBootloaderKernelState.* Md:Str:Str Mv:Str:Str Mc:Str:Str
+
+//@ func (boot.bootloaderKernelState20).setNextKernelNoTry
+//@   trusted
+//@   assigns bootState20Kernel.bks bootState20Kernel.rbl extractedRunKernelImageBootloaderKernelState.* envRefExtractedKernelBootloaderKernelState.* Md:Str:Str Mv:Str:Str Mc:Str:Str
+
+// Marking a kernel boot successful: the bootloader side (kernel_status / kernel symlinks) is queued
+// to run BEFORE the modeenv is rewritten, and the modeenv then trusts only the kernel that booted.
+//@ func (*bootState20Kernel).markSuccessful
+//@   props C17
+//@   requires forall p *bootStateUpdate20 :: {iface(p)} iface(p) == update ==> allocated(p) && p.writeModeenv != p.modeenv
+//@   ensures [result] result1 == nil ==> result0 == iface(final(u20)) && final(u20) != nil
+//@   ensures [bootloader-first-fresh] result1 == nil && iface(final(u20)) != update ==> (len(final(u20).preModeenvTasks) == 1 && len(final(u20).writeModeenv.CurrentKernels) == 1 || len(final(u20).preModeenvTasks) == 0) && len(final(u20).postModeenvTasks) == 0
+//@   ensures [bootloader-first-threaded] result1 == nil && iface(final(u20)) == update ==> (len(final(u20).preModeenvTasks) == old(len(final(u20).preModeenvTasks)) + 1 && len(final(u20).writeModeenv.CurrentKernels) == 1 || final(u20).preModeenvTasks == old(final(u20).preModeenvTasks) && final(u20).writeModeenv.CurrentKernels == old(final(u20).writeModeenv.CurrentKernels)) && final(u20).postModeenvTasks == old(final(u20).postModeenvTasks)
+//@   guard store Modeenv.CurrentKernels: [only-booted-kernel-trusted] obj == u20.writeModeenv && len(val) == 1 && val[0] == sn.Filename() && sn != nil
+//@   guard call (*bootStateUpdate20).preModeenv: [queued-in-the-threaded-update] arg0 == u20
+
+//@ func (*bootState20Kernel).markSuccessful$1
+//@   props C17
+//@   guard call markSuccessfulKernel: [the-booted-kernel] arg0 == sn && recv == ks20.bks
+
+// Setting the next kernel: the bootloader side is queued to run AFTER the modeenv is written; when
+// trying, the modeenv keeps trusting every kernel it trusted and additionally the new one; when
+// undoing it trusts only the kernel reverted to.
+//@ func (*bootState20Kernel).setNext
+//@   props C17
+//@   ensures [result] err == nil ==> u == iface(final(u20)) && final(u20) != nil
+//@   ensures [bootloader-after-modeenv] err == nil ==> len(final(u20).preModeenvTasks) == 0 && len(final(u20).postModeenvTasks) == 1
+//@   ensures [try-keeps-trusted-kernels] err == nil && !bootCtx.BootWithoutTry ==> len(final(u20).writeModeenv.CurrentKernels) >= len(final(u20).modeenv.CurrentKernels) && forall j int :: 0 <= j && j < len(final(u20).modeenv.CurrentKernels) ==> final(u20).writeModeenv.CurrentKernels[j] == final(u20).modeenv.CurrentKernels[j]
+//@   ensures [try-trusts-new-kernel] err == nil && !bootCtx.BootWithoutTry && next.Filename() != final(currentKernel).Filename() ==> len(final(u20).writeModeenv.CurrentKernels) == len(final(u20).modeenv.CurrentKernels) + 1 && final(u20).writeModeenv.CurrentKernels[len(final(u20).modeenv.CurrentKernels)] == next.Filename()
+//@   ensures [undo-trusts-only-target] err == nil && bootCtx.BootWithoutTry ==> len(final(u20).writeModeenv.CurrentKernels) == 1 && final(u20).writeModeenv.CurrentKernels[0] == next.Filename()
+//@   ensures [base-fields-untouched] err == nil ==> final(u20).writeModeenv.Base == final(u20).modeenv.Base && final(u20).writeModeenv.TryBase == final(u20).modeenv.TryBase && final(u20).writeModeenv.BaseStatus == final(u20).modeenv.BaseStatus
+
+//@ func (*bootState20Kernel).setNext$1
+//@   props C17
+//@   guard call setNextKernel: [the-next-kernel] arg0 == next && recv == ks20.bks
+
+//@ func (*bootState20Kernel).setNext$2
+//@   props C17
+//@   guard call setNextKernelNoTry: [the-next-kernel] arg0 == next && recv == ks20.bks
+
+// reboots requested from the initramfs are counted (the call goes through a package variable)
+//@ ghost rebootCount() int
+
+//@ func var:initramfsReboot
+//@   trusted
+//@   assigns rebootCount
+//@   ensures rebootCount() == old(rebootCount()) + 1
+
+//@ define trustedKernel(m *Modeenv, f string) = exists j int :: 0 <= j && j < len(m.CurrentKernels) && m.CurrentKernels[j] == f
+
+// The initramfs only ever hands out a kernel that the modeenv trusts; a tried kernel that is not
+// trusted, or an inconsistent trial state, makes it reboot (so that the bootloader falls back)
+// instead of continuing.
+//@ func (*bootState20Kernel).selectAndCommitSnapInitramfsMount
+//@   props C17
+//@   ensures [only-trusted-kernel] sn != nil ==> trustedKernel(modeenv, sn.Filename()) && sn == final(first)
+//@   ensures [reboot-means-no-kernel] rebootCount() != old(rebootCount()) ==> sn == nil
+//@   ensures [untrusted-tried-kernel-reboots] final(second) != nil && final(first) != nil && !trustedKernel(modeenv, final(first).Filename()) ==> rebootCount() == old(rebootCount()) + 1
+//@   ensures [modeenv-untouched] modeenv.CurrentKernels == old(modeenv.CurrentKernels)
+
+// ---- UC20+ kernel on bootloaders with extracted kernel images (grub, piboot): order of the writes -----
+//
+// Each bootloader call below is one persistent write; a power cut can fall between any two. The
+// orders proved are the ones the fallback argument needs (see the comments in the code).
+
+// mark successful: kernel_status is cleared first, then the kernel symlink moves, and the try
+// symlink is removed last
+//@ func (*extractedRunKernelImageBootloaderKernelState).markSuccessfulKernel
+//@   props C17
+//@   guard call SetBootVars: [status-cleared-first] !called("EnableKernel") && !called("DisableTryKernel") && has(arg0, "kernel_status") && arg0["kernel_status"] == "" && forall k string :: has(arg0, k) ==> k == "kernel_status"
+//@   guard call EnableKernel: [after-status-cleared] (bks.currentKernelStatus == "" || called("SetBootVars")) && !called("DisableTryKernel") && arg0 == sn
+//@   guard call DisableTryKernel: [last] (bks.currentKernelStatus == "" || called("SetBootVars")) && (bks.currentKernel.Filename() == sn.Filename() || called("EnableKernel"))
+//@   ensures [all-done-on-success] result == nil ==> called("DisableTryKernel")
+
+// set next: the try-kernel symlink is in place before kernel_status says "try"; the known-good
+// kernel symlink is not touched
+//@ func (*extractedRunKernelImageBootloaderKernelState).setNextKernel
+//@   props C17
+//@   guard call EnableTryKernel: [before-status] !called("SetBootVars") && arg0 == sn
+//@   guard call SetBootVars: [try-kernel-in-place-first] (sn.Filename() == bks.currentKernel.Filename() || called("EnableTryKernel")) && has(arg0, "kernel_status") && arg0["kernel_status"] == status && forall k string :: has(arg0, k) ==> k == "kernel_status"
+//@   ensures [good-kernel-untouched] !called("EnableKernel")
+
+// undo: the kernel symlink is moved back before the status is cleared
+//@ func (*extractedRunKernelImageBootloaderKernelState).setNextKernelNoTry
+//@   props C17
+//@   guard call EnableKernel: [first] !called("SetBootVars") && !called("DisableTryKernel") && arg0 == sn
+//@   guard call SetBootVars: [after-kernel] (sn.Filename() == bks.currentKernel.Filename() || called("EnableKernel")) && called("DisableTryKernel") && has(arg0, "kernel_status") && arg0["kernel_status"] == ""
+
+// ---- UC20+ kernel on bootloaders that only have variables (u-boot env): one write with everything ------
+
+//@ func (*envRefExtractedKernelBootloaderKernelState).commonStateCommitUpdate
+//@   props C17
+//@   ensures [changed] result == (old(envbks.env["kernel_status"] != envbks.toCommit["kernel_status"]) || sn.Filename() != envbks.kern.Filename())
+//@   ensures [var-set] sn.Filename() != envbks.kern.Filename() ==> has(envbks.toCommit, bootvar) && envbks.toCommit[bootvar] == sn.Filename()
+//@   ensures [rest] forall k string :: k != bootvar || sn.Filename() == envbks.kern.Filename() ==> has(envbks.toCommit, k) == old(has(envbks.toCommit, k)) && envbks.toCommit[k] == old(envbks.toCommit[k])
+//@   ensures [fields] envbks.toCommit == old(envbks.toCommit) && envbks.env == old(envbks.env) && envbks.kern == old(envbks.kern) && envbks.bl == old(envbks.bl)
+
+// mark successful: status cleared, snap_kernel becomes the booted kernel, snap_try_kernel cleared
+//@ func (*envRefExtractedKernelBootloaderKernelState).markSuccessfulKernel
+//@   props C17
+//@   requires envbks.env != envbks.toCommit
+//@   guard call SetBootVars: [content] arg0 == envbks.toCommit && arg0["kernel_status"] == "" && (sn.Filename() != envbks.kern.Filename() ==> arg0["snap_kernel"] == sn.Filename()) && (envbks.env["snap_try_kernel"] != "" ==> arg0["snap_try_kernel"] == "")
+//@   guard call SetBootVars: [good-kept-if-same-kernel] sn.Filename() == envbks.kern.Filename() ==> arg0["snap_kernel"] == old(envbks.toCommit["snap_kernel"])
+//@   ensures [written-when-kernel-changes] result == nil && sn.Filename() != envbks.kern.Filename() ==> called("SetBootVars")
+
+// set next: status as asked, snap_try_kernel is the new kernel, snap_kernel (known-good) untouched
+//@ func (*envRefExtractedKernelBootloaderKernelState).setNextKernel
+//@   props C17
+//@   requires envbks.env != envbks.toCommit
+//@   guard call SetBootVars: [content] arg0 == envbks.toCommit && arg0["kernel_status"] == status && (sn.Filename() != envbks.kern.Filename() ==> arg0["snap_try_kernel"] == sn.Filename())
+//@   guard call SetBootVars: [good-untouched] arg0["snap_kernel"] == old(envbks.toCommit["snap_kernel"])
+//@   ensures [written-when-kernel-changes] result == nil && sn.Filename() != envbks.kern.Filename() ==> called("SetBootVars")
+
+// undo: status cleared and snap_kernel set to the kernel reverted to
+//@ func (*envRefExtractedKernelBootloaderKernelState).setNextKernelNoTry
+//@   props C17
+//@   requires envbks.env != envbks.toCommit
+//@   guard call SetBootVars: [content] arg0 == envbks.toCommit && arg0["kernel_status"] == "" && (sn.Filename() != envbks.kern.Filename() ==> arg0["snap_kernel"] == sn.Filename())
+
+// ---- UC20+ bootloaders without scripting (piboot): the initramfs plays the boot script -----------------
+//
+// Same transition as the kernel_status logic of grub.cfg: "try" in the configuration AND "trying" on
+// the kernel command line (the try kernel is the one running) -> "trying"; anything else -> ""
+// (a failed or inconsistent trial ends, the known-good kernel is used from now on); nothing is
+// written when no trial is under way.
+//@ func updateNotScriptableBootloaderStatus
+//@   props C17
+//@   guard call SetBootVarsFromInitramfs: [transition] curKernStatus != "" && has(arg0, "kernel_status") && arg0["kernel_status"] == ite(curKernStatus == "try" && kVals["kernel_status"] == "trying", "trying", "") && forall k string :: has(arg0, k) ==> k == "kernel_status"
+//@   ensures [no-trial-no-write] final(curKernStatus) == "" ==> !called("SetBootVarsFromInitramfs")
+//@   ensures [trial-state-always-resolved] result == nil && final(curKernStatus) != "" ==> called("SetBootVarsFromInitramfs")
+
+// ---- the try-boot protocol as a transition system -----------------------------------------------------
+//
+// The functions above are tied to the following small model by their postconditions ("model-..."
+// clauses below); the lemmas then speak about sequences of steps. For UC20 bases every step of the
+// protocol is snapd code (userspace + initramfs), each step ending in one modeenv write. For UC16
+// the boot step is done by the bootloader script and enters as the assumption spec16Boot*.
+
+//@ func specBaseInitStatus
+//@   pure
+
+// base_status after the initramfs step; picksTry: the initramfs found a usable tried base
+func specBaseInitStatus(status string, picksTry bool) string {
+	if status == "try" {
+		if picksTry {
+			return "trying"
+		}
+		return "try"
+	}
+	if status == "trying" {
+		return ""
+	}
+	return status
+}
+
+//@ func specBasePromotes
+//@   pure
+
+// markSuccessful makes the tried base the known-good one
+func specBasePromotes(status, try string) bool {
+	return status == "trying" && try != ""
+}
+
+// Two consecutive boots of the real initramfs code on the same modeenv with no markSuccessful in
+// between (a failed or interrupted trial boot): only the known-good base or the single tried one is
+// handed out, the tried one only from status "try" and with the status moved to "trying"; the second
+// boot then hands out the known-good base and resets the status.
+//@ func lemBaseTwoBoots
+//@   lemma
+//@   props C17
+//@   requires modeenv != nil
+//@   ensures [first-boot] final(err) == nil && final(sn) != nil ==> parsedFrom(final(sn), old(modeenv.Base)) || (old(modeenv.BaseStatus) == "try" && old(modeenv.TryBase) != "" && parsedFrom(final(sn), old(modeenv.TryBase)) && final(mid) == "trying")
+//@   ensures [second-boot-falls-back] final(err) == nil && final(sn) != nil && final(mid) == "trying" && final(err2) == nil && final(sn2) != nil ==> parsedFrom(final(sn2), old(modeenv.Base)) && modeenv.BaseStatus == ""
+
+func lemBaseTwoBoots(bs20 *bootState20Base, modeenv *Modeenv, rootfsDir string) {
+	sn, err := bs20.selectAndCommitSnapInitramfsMount(modeenv, rootfsDir)
+	if err != nil || sn == nil {
+		return
+	}
+	mid := modeenv.BaseStatus
+	sn2, err2 := bs20.selectAndCommitSnapInitramfsMount(modeenv, rootfsDir)
+	_, _, _ = mid, sn2, err2
+}
+
+// a trial that is not marked successful ends at the next boot: the tried base is picked at most once
+//@ func lemBaseTrialEnds
+//@   lemma
+//@   props C17
+//@   requires p1 ==> status == "try"
+//@   requires p2 ==> specBaseInitStatus(status, p1) == "try"
+//@   ensures p1 ==> !p2 && specBaseInitStatus(specBaseInitStatus(status, p1), p2) == ""
+//@   ensures specBaseInitStatus(status, p1) == "trying" ==> p1
+
+func lemBaseTrialEnds(status string, p1, p2 bool) {}
+
+// the tried base is promoted only from "trying", and "trying" is only entered by the initramfs step
+// that handed out the tried base: promotion implies that base booted just before
+//@ func lemBasePromotionNeedsBoot
+//@   lemma
+//@   props C17
+//@   requires picked ==> status == "try"
+//@   ensures specBasePromotes(specBaseInitStatus(status, picked), try) ==> picked && try != ""
+
+func lemBasePromotionNeedsBoot(status, try string, picked bool) {}
+
+// UC16: the bootloader script (assumption, transcribed from the u-boot/grub boot scripts of core16/18
+// gadgets): "try" -> "trying" and boot the try variables; "trying" -> "" and boot the known-good ones.
+//@ func spec16BootMode
+//@   pure
+
+func spec16BootMode(mode string) string {
+	if mode == "try" {
+		return "trying"
+	}
+	if mode == "trying" {
+		return ""
+	}
+	return mode
+}
+
+//@ func spec16BootsTry
+//@   pure
+
+func spec16BootsTry(mode string) bool { return mode == "try" }
+
+//@ func spec16Promotes
+//@   pure
+
+// markSuccessful copies the try variable into the known-good one (proved: fresh-dom / fresh-val)
+func spec16Promotes(mode, try string) bool { return mode == "trying" && try != "" }
+
+// with that boot script: the tried revision is booted at most once without being marked, and it is
+// promoted only right after a boot that used it
+//@ func lem16TrialEndsAndPromotionNeedsBoot
+//@   lemma
+//@   props C17
+//@   ensures spec16BootsTry(mode) ==> !spec16BootsTry(spec16BootMode(mode)) && spec16BootMode(spec16BootMode(mode)) == ""
+//@   ensures spec16Promotes(spec16BootMode(mode), try) ==> spec16BootsTry(mode) && try != ""
+//@   ensures !spec16Promotes(mode, try) || mode == "trying"
+
+func lem16TrialEndsAndPromotionNeedsBoot(mode, try string) {}
